@@ -48,7 +48,20 @@ static J gen_background(Chooser &ch)
               q = g::make_query(w.fr, lon, std::max(-89.0, std::min(89.0, c0[1] + ch.real(-20, 20))), depth);
             }
           else q = g::make_query(w.fr, c0[0] + std::cos(ang) * ch.real(6000e3, 9000e3), c0[1] + std::sin(ang) * ch.real(6000e3, 9000e3), depth);
-          q["far"] = true;
+          // ... from *every* feature (15% of the features are not placed at the common hub): footprints and slabs stay within
+          // 2500 km / 25 degrees of their kernel
+          bool is_far = true;
+          for (const auto &fm : w.feats)
+            {
+              if (w.fr.sph)
+                {
+                  double dl = std::fmod(std::fabs(q.at("nat")[0].num() - fm.kernel[0]), 360.0);
+                  if (dl > 180) dl = 360 - dl;
+                  if (dl < 50) is_far = false;
+                }
+              else if (std::hypot(q.at("nat")[0].num() - fm.kernel[0], q.at("nat")[1].num() - fm.kernel[1]) < 4500e3) is_far = false;
+            }
+          q["far"] = is_far;
         }
       else
         {
